@@ -254,6 +254,57 @@ func ruleCarrierWrappers(c *Ctx, rule string) {
 			}
 		})
 		c.check(ok, rule, name+": endpoint receives the thread-safe wrapper", posOf(w, fn), "stream wrapped before use", "the tunnel endpoint is constructed with the raw gRPC stream instead of the thread-safe wrapper: concurrent RPCs would call Send concurrently")
+		// callbacks created on the opening path run later, concurrently with the endpoint: their send-side carrier
+		// operations must go through the wrapper as well
+		for _, af := range fn.AnonFuncs {
+			for _, e := range w.directEffects(af).Effects {
+				switch e.Kind {
+				case "carrier-send", "carrier-closesend", "carrier-recv":
+				default:
+					continue
+				}
+				ci, isCI := e.Instr.(ssa.CallInstruction)
+				if !isCI {
+					continue
+				}
+				recv := ci.Common().Value
+				if !ci.Common().IsInvoke() && len(ci.Common().Args) > 0 {
+					recv = ci.Common().Args[0]
+				}
+				wrapped := w.isWrapperAlloc(origin(recv))
+				if !wrapped {
+					// captured variable (cell): the store in force when the closure is created
+					v := stripConv(recv)
+					if u, isU := v.(*ssa.UnOp); isU {
+						v = u.X
+					}
+					if fv, isFV := v.(*ssa.FreeVar); isFV {
+						if cell, isCell := freeVarBinding(fv).(*ssa.Alloc); isCell {
+							var mk ssa.Instruction
+							allInstrs(fn, func(in ssa.Instruction) {
+								if m, isM := in.(*ssa.MakeClosure); isM && m.Fn == ssa.Value(af) {
+									mk = m
+								}
+							})
+							var best *ssa.Store
+							for _, r := range *cell.Referrers() {
+								if st, isSt := r.(*ssa.Store); isSt && st.Addr == ssa.Value(cell) && mk != nil && dominates(st, mk) && (best == nil || dominates(best, st)) {
+									best = st
+								}
+							}
+							wrapped = best != nil && w.isWrapperAlloc(best.Val)
+							// no later store may replace the wrapper
+							for _, r := range *cell.Referrers() {
+								if st, isSt := r.(*ssa.Store); isSt && st.Addr == ssa.Value(cell) && st != best && best != nil && !dominates(st, best) {
+									wrapped = false
+								}
+							}
+						}
+					}
+				}
+				c.check(wrapped, rule, name+": "+e.Kind+" in a callback goes through the wrapper", w.At(e.Instr), "receiver is the thread-safe wrapper", "a callback created on the opening path calls "+e.Kind+" on the raw gRPC stream ("+desc(recv)+"), bypassing the wrapper's mutex: when it runs (Close/tear-down) concurrently with a SendMsg or the receive loop's replies, two goroutines are inside the stream's send side at once")
+			}
+		}
 	}
 }
 
